@@ -114,12 +114,6 @@ class Analyzer:
         """
         self.__circuit_built = self.circuit._build()
         n_modes = self.circuit.input_modes
-        if self.circuit.heralds["input"] != self.circuit.heralds["output"]:
-            raise RuntimeError(
-                "Mismatch in number of heralds on the input/output modes, it "
-                "is likely this results from a herald being added twice or "
-                "modified."
-            )
         # Convert state to list of States if not provided for single state case
         if isinstance(inputs, State):
             inputs = [inputs]
